@@ -227,9 +227,43 @@ fn polymorphic_sites(ctx: &mut Ctx) {
     }
 }
 
+/// members named like the Feeny word spellings of the operators (add, eq, le, and, ...) are ordinary
+/// members: found by that name on the receiver or its parents before any built-in at the end of the
+/// chain is asked, and never found under the operator symbol. 13 names x 3 chain ends x own/inherited x 4 calls.
+fn word_named_members(ctx: &mut Ctx) {
+    ctx.stage("U-OBJ members named like the word spellings of operators");
+    let words = [("add", "+"), ("sub", "-"), ("mul", "*"), ("div", "/"), ("mod", "%"), ("le", "<="), ("ge", ">="), ("lt", "<"), ("gt", ">"), ("eq", "=="), ("neq", "!="), ("and", "&"), ("or", "|")];
+    let ends: Vec<(&str, Option<E>)> = vec![("null", None), ("int", Some(int(5))), ("bool", Some(E::Bool(true)))];
+    for (word, symbol) in words {
+        for (_ename, end) in &ends {
+            for inherited in [false, true] {
+                for call in 0..4usize {
+                    if ctx.take().is_none() { continue }
+                    let user = method(word, &["k"], block(vec![print("<user ~>", vec![var("k")]), int(1000)])); // no `this`: U4 would make the inherited variant unspecified
+                    let mut p_members = vec![field("v", int(0))];
+                    let mut o_members = vec![field("w", int(0))];
+                    if inherited { p_members.push(user) } else { o_members.push(user) }
+                    let mut prog = vec![let_("p", object(end.clone(), p_members)), let_("o", object(Some(var("p")), o_members))];
+                    let arg = if symbol == "&" || symbol == "|" { E::Bool(false) } else { int(1) };
+                    prog.push(print("=~\\n", vec![match call {
+                        0 => mcall(var("o"), word, vec![arg.clone()]),            // the user's member, by its name
+                        1 => binop(symbol, var("o"), arg.clone()),                 // the operator: the user's member is NOT it
+                        2 => mcall(var("p"), word, vec![arg.clone()]),             // through the parent only
+                        _ => mcall(var("o"), word, vec![]),                        // wrong argument count for the user's member
+                    }]));
+                    prog.push(print("|~ ~\\n", vec![fget(var("o"), "w"), fget(var("p"), "v")]));
+                    semantic_case(ctx, "U-OBJ/word", &prog);
+                    ctx.count("programs", 1);
+                }
+            }
+        }
+    }
+}
+
 pub fn run(ctx: &mut Ctx) {
     let d = if ctx.quick() { 4 } else { 5 };
     aliasing(ctx);
+    word_named_members(ctx);
     cyclic_graphs(ctx);
     polymorphic_sites(ctx);
     chains(ctx, d);
